@@ -24,6 +24,58 @@ pub fn free_port() -> std::io::Result<u16> {
     Ok(l.local_addr()?.port())
 }
 
+/// Start the endpoint on files that already exist (paths relative to `cwd`)
+pub fn start_existing(cwd: &std::path::Path, settings: &str, hosts: &str, addr: SocketAddr, wait_up: Duration, loglvl: &str) -> Start {
+    let log = TempFile::new("ep-log", "");
+    let child = Command::new(endpoint_bin())
+        .current_dir(cwd)
+        .arg("--jobs")
+        .arg("2")
+        .arg("-l")
+        .arg(loglvl)
+        .arg("--logfile")
+        .arg(log.path())
+        .arg(settings)
+        .arg(hosts)
+        .stdin(Stdio::null())
+        .stdout(Stdio::null())
+        .stderr(Stdio::piped())
+        .spawn();
+    let mut child = match child {
+        Ok(c) => c,
+        Err(e) => return Start::Failed(format!("cannot start {:?}: {}", endpoint_bin(), e)),
+    };
+    let started = Instant::now();
+    loop {
+        if let Ok(Some(st)) = child.try_wait() {
+            let mut err = String::new();
+            if let Some(mut e) = child.stderr.take() {
+                use std::io::Read;
+                let _ = e.read_to_string(&mut err);
+            }
+            let logtxt = std::fs::read_to_string(&log.0).unwrap_or_default();
+            return Start::Exited(st, format!("{}{}", err, logtxt));
+        }
+        if std::net::TcpStream::connect_timeout(&addr, Duration::from_millis(200)).is_ok() {
+            std::thread::sleep(Duration::from_millis(20));
+            if let Ok(None) = child.try_wait() {
+                return Start::Up(Endpoint { child, addr, started, _files: vec![], log });
+            }
+            continue;
+        }
+        if started.elapsed() > wait_up {
+            let _ = child.kill();
+            let _ = child.wait();
+            return Start::Failed(format!("endpoint not accepting connections after {:?}", wait_up));
+        }
+        std::thread::sleep(Duration::from_millis(10));
+    }
+}
+
+pub fn wizard_bin() -> std::path::PathBuf {
+    endpoint_bin().with_file_name("ttv-wizard")
+}
+
 pub enum Start {
     Up(Endpoint),
     /// the process ended by itself: exit status and its output
@@ -34,14 +86,24 @@ pub enum Start {
 /// Write the three files and start the endpoint. `settings` must contain the marker `@LISTEN@`
 /// where the listen address goes and `@CRED@` where the credentials path goes.
 pub fn start(settings: &str, hosts: &str, credentials: &str, wait_up: Duration, loglvl: &str) -> Start {
+    start_on(settings, hosts, credentials, wait_up, loglvl)
+}
+
+/// Like [`start`]; `@PORT@` in the settings is replaced by the free port alone (the settings then
+/// choose the address), and the probe connects to that port on the matching loopback address.
+pub fn start_on(settings: &str, hosts: &str, credentials: &str, wait_up: Duration, loglvl: &str) -> Start {
     for _ in 0..10 {
         let port = match free_port() {
             Ok(p) => p,
             Err(e) => return Start::Failed(e.to_string()),
         };
-        let addr: SocketAddr = format!("127.0.0.1:{}", port).parse().unwrap();
+        let v6 = settings.contains("\"[::") ;
+        let addr: SocketAddr = if v6 { format!("[::1]:{}", port) } else { format!("127.0.0.1:{}", port) }.parse().unwrap();
         let cred = TempFile::new("ep-cred", credentials);
-        let sdoc = settings.replace("@LISTEN@", &addr.to_string()).replace("@CRED@", &cred.path());
+        let sdoc = settings
+            .replace("@LISTEN@", &addr.to_string())
+            .replace("@PORT@", &port.to_string())
+            .replace("@CRED@", &cred.path());
         let sfile = TempFile::new("ep-settings", &sdoc);
         let hfile = TempFile::new("ep-hosts", hosts);
         let log = TempFile::new("ep-log", "");
